@@ -102,7 +102,7 @@ func (e *Engine) newVC(name, prop string) (*FuncVC, error) {
 	}
 	ct := e.spec.Contracts[name]
 	vc := &FuncVC{eng: e, w: newWorld(e.pkg.Types), fn: fn, name: name, contract: ct, prop: prop,
-		heapInits: map[string]string{}, heapSorts: map[string]string{}, glue: map[string][]glueCand{}, glueInit: map[string]bool{},
+		heapInits: map[string]string{}, heapSorts: map[string]string{}, glue: map[string][]glueCand{}, glueInit: map[string]bool{}, candDropped: map[string]bool{},
 		loopInfos: map[*ssa.Function]*loopInfo{}, assumed: map[string]bool{}, trusted: map[string]bool{}, lemmaClauses: map[string][]string{}, maxPaths: 20000, compose: stage}
 	return vc, nil
 }
